@@ -8,7 +8,7 @@ the file that the real `__exit__` wrote.  See DESIGN.md section 5 / C03.
 from fractions import Fraction
 
 from ..sim import ops as opsmod
-from ..sim.bench import Session, digest_events
+from ..sim.bench import Session, ShapeChanged, digest_events, raised_in_sut
 from ..sim.gen import Gen
 from ..sim.geom import dec, frac
 from ..sim.robot import DecodeError, Robot, parse_number
@@ -172,8 +172,13 @@ def execute(world, opsource, fault, want_lines=False):
             if isinstance(e, (SystemExit, GeneratorExit)):
                 raise
             if raised is None or e is not raised:
-                # an exception that did not come from an operation: harness or save() failure
-                raise
+                # an exception that did not come from an operation: save()/__exit__ or an observation of the
+                # system under test raised (behaviour of the code under test), or the harness is at fault
+                if isinstance(e, ShapeChanged) or (isinstance(e, Exception) and raised_in_sut(e)):
+                    viol("C03.observe", last_idx, last_op, res.exc_type,
+                         f"leaving the with block or observing the worklist/labware raised {type(e).__name__} inside robotools")
+                else:
+                    raise
         else:
             if res.failed:
                 viol("C03.propagates", last_idx, last_op, res.exc_type,
